@@ -58,6 +58,22 @@ def run(chk):
             lcompile.correspondence(chk, triples, ("cls",))
             del triples
         chk.samples = first or []
+        # the executable model runs the parser's loop on a budget smaller than the one of the termination theorem
+        # (C06_parse_terminates, C06_budgets_do_not_matter); on the smaller inputs of this corpus the model is also run with the
+        # proved budgets (9(n+1) for the pump, 460(n+1)+2 for the loop) and must give the same outcome, tree, error and code
+        small = [c for c in cases if len(c) <= 1200]
+        small = small[:: max(1, len(small) // (800 if quick else 20000))]
+        lines_small = [common.hx(c) for c in small]
+        a = common.run_lines_parallel(common.DRIVER, ["compile " + h for h in lines_small])
+        b = common.run_lines_parallel(common.DRIVER, ["compilebig " + h for h in lines_small])
+        for c, x, y in zip(small, a, b):
+            chk.count("budget:executable model vs proved budgets")
+            if x != y:
+                chk.broke("correspondence", "L-BUDGET", "the executable model (small parser budget) and the model under the proved budgets differ",
+                          input_hex=common.hx(c), executable=x[:200], proved=y[:200])
+            else:
+                chk.traces += 1
+        chk.notes.append("executable model = model under the budgets of the termination theorem on %d inputs of at most 1200 bytes" % len(small))
         # scaling families (implementation only; timing is supporting evidence, the hard oracle is the watchdog)
         sizes = [200, 400, 800] if quick else [500, 1000, 2000, 4000]
         timing = {}
